@@ -84,7 +84,12 @@ def PrimSpec.coherent (s : PrimSpec) (inLastPositional : Bool) : Bool :=
      (match s.pref with | .fixed _ => s.pad.char?.isSome | _ => true)
    | _ => true) &&
   -- the custom Track2 packer needs a real pad
-  (match s.packer with | .track2 => s.kind == .string && s.pad.char?.isSome | .default => true) &&
+  -- the custom Track2 packer announces the unpadded length: String kind, a real pad, and a
+  -- variable-length prefix (a fixed one would have to equal the unpadded length)
+  (match s.packer with
+   | .track2 => s.kind == .string && s.pad.char?.isSome &&
+       (match s.pref with | .var _ _ => true | .berTLV => true | _ => false)
+   | .default => true) &&
   -- spec.Length is a Go int
   decide (s.len ≤ maxInt)
 
